@@ -191,6 +191,8 @@ def _run_reused(arg):
     pr = psutil.Process(victim)
     old = w.procs[victim]
     w.vanish(victim)
+    if len(arg) > 5 and arg[5]:
+        outcome(pr.wait, 0)         # the caller has waited for the process first (a finished wait() is remembered by the object)
     w.tick(500)
     w.spawn(victim, ppid=old.ppid, comm=b"new", start=old.start + 700)
     bad = []
@@ -306,6 +308,26 @@ def _run_fault(arg):
         may |= reach
         if not set(got[1]) <= may or len(set(got[1])) != len(got[1]):
             bad.append(("fault:children-extra", "got %r, table before %r" % (got[1], sorted(may))))
+        # MUST: what is reachable from the caller without going through the process that vanished (its own subtree may be lost
+        # with it, nothing else may)
+        gone = set(range(1, len(parents) + 1)) - set(w.procs)
+        ref_must = set(before["must"] if recursive else before["direct"])
+        pp = {i + 1: parents[i] for i in range(len(parents))}
+        keep = set()
+        for q in ref_must:
+            x, ok, seen = q, True, set()
+            while x != caller and x in pp and x not in seen:
+                seen.add(x)
+                if x in gone:
+                    ok = False
+                    break
+                x = pp[x]
+            if ok and x == caller:
+                keep.add(q)
+        if not keep <= set(got[1]):
+            bad.append(("fault:children-missing-relatives-unrelated-to-the-vanished-process",
+                        "children(recursive=%s) of pid %d with pid %s vanishing before access %r: got %r, still must contain %r"
+                        % (recursive, caller, sorted(gone), idx, got[1], sorted(keep))))
     return {"n": len(hook.accesses), "bad": bad}
 
 
@@ -385,11 +407,12 @@ def run(ctx):
         for victim in (1, 2, 3):
             reused.append((list(parents), [0, 1, 2], ctx.seed, victim))
             reused.append((list(parents), [0, 1, 2], ctx.seed, victim, True))
+            reused.append((list(parents), [0, 1, 2], ctx.seed, victim, False, True))
     res2 = ctx.pmap(run_reused, reused)
     for wd, (bad, _) in zip(reused, res2):
         for cause, msg in bad:
-            viols.append({"cause": cause + (":own-pid" if len(wd) > 4 else ""), "msg": msg,
-                          "case": {"parents": wd[0], "ranks": wd[1], "recycled": wd[3], "own": len(wd) > 4}})
+            viols.append({"cause": cause + (":own-pid" if len(wd) > 4 and wd[4] else "") + (":after-wait" if len(wd) > 5 and wd[5] else ""), "msg": msg,
+                          "case": {"parents": wd[0], "ranks": wd[1], "recycled": wd[3], "own": len(wd) > 4 and wd[4], "waited": len(wd) > 5 and wd[5]}})
     hist = []
     for parents in itertools.product(range(0, 4), repeat=3):
         for victim in (1, 2, 3):
@@ -424,7 +447,7 @@ def replay(ctx, case):
         bad, _ = run_after_history((case["parents"], case["ranks"], ctx.seed, case["after_history"][0], case["after_history"][1]))
         return {"violated": bool(bad), "viols": bad}
     if "recycled" in case:
-        bad, _ = run_reused((case["parents"], case["ranks"], ctx.seed, case["recycled"], bool(case.get("own"))))
+        bad, _ = run_reused((case["parents"], case["ranks"], ctx.seed, case["recycled"], bool(case.get("own")), bool(case.get("waited"))))
     else:
         bad, _ = run_world((case["parents"], case["ranks"], ctx.seed, case.get("names"), case.get("opts") or {}))
     return {"violated": bool(bad), "viols": bad}
